@@ -61,12 +61,8 @@ struct Scenario {
 // handled.  Generated runs skip these pairs (counted); their witnesses are replayed with strict=1.
 struct Known { const char *id; const char *scenario; int side; /*0 library, 1 storage engine*/ };
 static const Known KNOWN[] = {
-    // library-side pairs: none left (F-OOM-CRASH, library-side F-OOM-LEAK and F-OOM-CODE were repaired in /repo)
-    {"F-OOM-LEAK", "cif_loop_set_category", 1},
-    {"F-OOM-CODE", "cif_container_get_value(scalar)", 1}, {"F-OOM-CODE", "cif_container_get_value(looped)", 1},
-    {"F-OOM-CODE", "cif_pktitr_next_packet(new)", 1}, {"F-OOM-CODE", "cif_pktitr_next_packet(reuse)", 1}, {"F-OOM-CODE", "cif_pktitr_next_packet(into unrelated packet)", 1},
-    {"F-OOM-SQLITE-TX", "cif_walk", 1}, {"F-OOM-SQLITE-TX", "cif_write(2.0)", 1}, {"F-OOM-SQLITE-TX", "cif_write(1.1)", 1}, {"F-OOM-SQLITE-TX", "cif_loop_get_packets", 1}, {"F-OOM-SQLITE-TX", "cif_pktitr_abort", 1},
-    {"F-OOM-SQLITE-PARTIAL", "cif_container_get_all_loops", 1}, {"F-OOM-SQLITE-PARTIAL", "cif_loop_get_names", 1},
+    // none left: the library-side and the storage-engine-side defects found were all repaired in /repo
+    {"(none)", "(none)", -1},
 };
 static const char *known_id(const char *scenario, int side) { for (auto &k : KNOWN) if (k.side == side && strcmp(k.scenario, scenario) == 0) return k.id; return nullptr; }
 
